@@ -131,3 +131,97 @@ type c19DRec3 struct {
 	K1 fpgo.ComparableOrdered[int]
 	K3 fpgo.ComparableOrdered[float64]
 }
+
+// (c) distinct record types whose names print alike (function-local types called "row", fields in another order): a
+// field-name descriptor resolves the field per TYPE, whatever was sorted before in this process.
+func c19RowsA(fields []string, asc []bool) (got, want []string) {
+	type row struct {
+		First, Last fpgo.ComparableString
+		N           fpgo.ComparableOrdered[int]
+	}
+	in := []row{}
+	for i, p := range [][3]string{{"b", "x", "2"}, {"a", "z", "1"}, {"c", "y", "3"}, {"a", "w", "4"}, {"b", "v", "0"}} {
+		in = append(in, row{fpgo.NewComparableString(p[0]), fpgo.NewComparableString(p[1]), fpgo.NewComparableOrdered(i)})
+	}
+	b := fpgo.NewSortDescriptorsBuilder[row]()
+	for i, f := range fields {
+		b = b.ThenWithFieldName(f, asc[i])
+	}
+	for _, r := range b.ToSortedList(in...) {
+		got = append(got, r.First.Val+"/"+r.Last.Val)
+	}
+	ref := append([]row(nil), in...)
+	sort.SliceStable(ref, func(x, y int) bool { return c19RowLess(fields, asc, ref[x].First.Val, ref[x].Last.Val, ref[y].First.Val, ref[y].Last.Val) })
+	for _, r := range ref {
+		want = append(want, r.First.Val+"/"+r.Last.Val)
+	}
+	return
+}
+
+func c19RowsB(fields []string, asc []bool) (got, want []string) {
+	type row struct {
+		N           fpgo.ComparableOrdered[int]
+		Last, First fpgo.ComparableString
+	}
+	in := []row{}
+	for i, p := range [][3]string{{"b", "x", "2"}, {"a", "z", "1"}, {"c", "y", "3"}, {"a", "w", "4"}, {"b", "v", "0"}} {
+		in = append(in, row{N: fpgo.NewComparableOrdered(i), First: fpgo.NewComparableString(p[0]), Last: fpgo.NewComparableString(p[1])})
+	}
+	b := fpgo.NewSortDescriptorsBuilder[row]()
+	for i, f := range fields {
+		b = b.ThenWithFieldName(f, asc[i])
+	}
+	for _, r := range b.ToSortedList(in...) {
+		got = append(got, r.First.Val+"/"+r.Last.Val)
+	}
+	ref := append([]row(nil), in...)
+	sort.SliceStable(ref, func(x, y int) bool { return c19RowLess(fields, asc, ref[x].First.Val, ref[x].Last.Val, ref[y].First.Val, ref[y].Last.Val) })
+	for _, r := range ref {
+		want = append(want, r.First.Val+"/"+r.Last.Val)
+	}
+	return
+}
+
+func c19RowLess(fields []string, asc []bool, f1, l1, f2, l2 string) bool {
+	for i, f := range fields {
+		a, b := f1, f2
+		if f == "Last" {
+			a, b = l1, l2
+		}
+		if a == b {
+			continue
+		}
+		if asc[i] {
+			return a < b
+		}
+		return a > b
+	}
+	return false
+}
+
+func c19SameNamedTypes(e *c19Env) {
+	stacks := []struct {
+		f []string
+		a []bool
+	}{{[]string{"First", "Last"}, []bool{true, true}}, {[]string{"Last"}, []bool{false}}, {[]string{"First", "Last"}, []bool{false, true}}, {[]string{"Last", "First"}, []bool{true, false}}}
+	for round := 0; round < 2; round++ {
+		for si, st := range stacks {
+			st := st
+			for _, which := range []string{"A", "B"} {
+				which := which
+				e.run("SortDescriptorsBuilder.ToSortedList(same-named local struct types)", fmt.Sprintf("%v %v on type row #%s", st.f, st.a, which), "5 rows", true, func() string {
+					var got, want []string
+					if (which == "A") == (si%2 == 0) {
+						got, want = c19RowsA(st.f, st.a)
+					} else {
+						got, want = c19RowsB(st.f, st.a)
+					}
+					if !eqSeq(got, want) {
+						return fmt.Sprintf("not-ordered|two distinct struct types both called row (fields in another order) sorted by field name in one process: got %v, want %v", got, want)
+					}
+					return ""
+				})
+			}
+		}
+	}
+}
